@@ -546,7 +546,7 @@ def run_unit(spec, tier, repo_root=None, variant=None, keep=None, extra_defs=())
                               function=o[3].get('function'), line=o[3].get('line'), file=os.path.basename(o[3].get('file', '')))
                          for o in obligations if o[2] != 'SUCCESS']
         res['samples'] = [dict(name=o[0], description=o[1][:160], status=o[2]) for o in obligations
-                          if re.search(r'postcondition|loop_invariant|assigns', o[0])][:6]
+                          if re.search(r'postcondition|loop_invariant|assigns', o[0]) or 'loop invariant' in o[1]][:6]
         kinds = {}
         for o in obligations:
             k = re.sub(r'\.\d+$', '', o[0])
@@ -559,8 +559,8 @@ def run_unit(spec, tier, repo_root=None, variant=None, keep=None, extra_defs=())
             return res
         nloops = len(spec['loops'])
         if nloops and spec['mode'] == 'proof':
-            nb = sum(1 for o in obligations if 'loop_invariant_base' in o[0])
-            ns = sum(1 for o in obligations if 'loop_invariant_step' in o[0])
+            nb = sum(1 for o in obligations if 'loop_invariant_base' in o[0] or 'loop invariant before entry' in o[1])
+            ns = sum(1 for o in obligations if 'loop_invariant_step' in o[0] or 'loop invariant is preserved' in o[1])
             res['loop_obligations'] = dict(base=nb, step=ns, loop_contracts=nloops)
             if nb == 0 or ns == 0:
                 res['reason'] = 'loop contracts silently dropped (no loop_invariant obligations)'
